@@ -13,6 +13,8 @@ def sweeps(ctx):
     return [
         ("inv-small", 31, 500 if q else 8000, ["txs=2..5", "workers=1,2,3", inv]),
         ("inv-mid", 32, 300 if q else 5000, ["txs=5..10", "workers=2,3,4", inv]),
+        # wrong nonce AND a later-checked reason (funds): the speculative verdict differs from the in-order one
+        ("inv-multi", 34, 600 if q else 8000, ["txs=2..6", "workers=1,2,3", "strat=mix2", "opts=invalid,forceinvalid,shared,multi"]),
         ("inv-pct", 33, 200 if q else 3000, ["txs=3..7", "workers=2,3", "strat=pct", inv]),
     ]
 
